@@ -223,6 +223,9 @@ def base_documents(tier):
         docs.append((sp["name"], to_yaml_doc(sp)))
         if len(seen) >= limit:
             break
+    from .family import scale_documents
+    for sp in scale_documents():
+        docs.append((sp["name"], to_yaml_doc(sp)))
     if tier == "thorough":
         for sp, b in family("thorough"):
             if b == "yaml" and yaml_expressible(sp) and sp["name"] not in seen and len(seen) < limit:
